@@ -9,6 +9,7 @@ import BVM.Model.Api
 import BVM.Model.Tsdl
 import BVM.Model.Meta
 import BVM.Model.Decode
+import BVM.Proofs.CfgOKb
 import Driver.Front
 open Lean BVM
 
@@ -224,6 +225,13 @@ def runHist (c : Cfg) (j : Json) : String :=
     let lines := s.log.reverse.filterMap (showEv (getBool j "stores"))
     let lines := if getBool j "hyps" then lines ++ ["hyp PosOK=" ++ b01 (posOKRun c d ops s0),
       "hyp SizeStable=" ++ b01 (sizeStableRun c d ops s0)] else lines
+    -- the hypotheses of `no_store_outside_the_buffer` (Props/C02.lean), and its conclusion, on this run
+    let lines := if getBool j "hyps2" then
+      let L := getNat j "buf"
+      let A := cfgAlign c d
+      lines ++ ["hyp2 CfgOK=" ++ b01 (cfgOKb A c d) ++ " HdrFits=" ++ b01 (hdrFitsb c d L s0.p.openArgs) ++
+        " SameSize=" ++ b01 (s0.p.setBufs.all (fun x => x.2 == L)) ++ " Small=" ++ b01 (decide (8 * L + A ≤ 2 ^ 32)) ++
+        " halted=" ++ b01 s.halted ++ " A=" ++ toString A] else lines
     (Json.arr (lines.map Json.str).toArray).compress
 
 /-! ### layout / API ops -/
